@@ -297,6 +297,63 @@ func c09Chunks(tier string) []SeqChunk {
 			}
 		}})
 	}
+	// every operation sequence up to a length, WITHOUT merging sequences that reach the same reference state: state
+	// hidden in the implementation (a cached value, a remembered argument) makes two histories with equal reference
+	// states behave differently, and the breadth-first search above visits only one history per state
+	var redAlpha []c09Op
+	for _, o := range c09Alphabet {
+		switch {
+		case o.k == "IncrInt64" && (o.n == 0 || o.n == 2 || o.n == math.MinInt64),
+			o.k == "SetCurrent" && (o.n == 0 || o.n == 1),
+			o.k == "settotal" && o.n == 0,
+			o.k == "SetRefill" && (o.n == -1 || o.n == 0),
+			o.k == "abort" && o.flag:
+			continue
+		}
+		redAlpha = append(redAlpha, o)
+	}
+	type allCfg struct {
+		depth int
+		alpha []c09Op
+		tag   string
+	}
+	allCfgs := []allCfg{{3, c09Alphabet, "full"}, {4, redAlpha, "reduced"}}
+	if tier == "thorough" {
+		allCfgs = []allCfg{{4, c09Alphabet, "full"}, {5, redAlpha, "reduced"}}
+	}
+	for _, ac := range allCfgs {
+		allDepth, allAlpha, allTag := ac.depth, ac.alpha, ac.tag
+		for _, init := range []int64{-1, 0, 1, 2, 5} {
+			init := init
+			chunks = append(chunks, SeqChunk{Name: fmt.Sprintf("c09-allseq-%s-alphabet-init%d-len%d", allTag, init, allDepth), Gen: func(env *SeqEnv) {
+				var rec func(ref refBar, path []c09Op)
+				rec = func(ref refBar, path []c09Op) {
+					for _, o := range allAlpha {
+						r2 := ref
+						r2.apply(o)
+						p2 := append(append([]c09Op{}, path...), o)
+						env.Trans++
+						env.States++
+						id := fmt.Sprintf("allseq init=%d path=%s", init, pathString(p2))
+						env.Case(id, func() (string, bool, string, string) {
+							obs := runPath(init, p2, false, false)
+							out := fmt.Sprintf("cur=%d comp=%v abort=%v", obs.cur, obs.comp, obs.abrt)
+							k, dt := c09Compare(r2, obs, false)
+							if k != "" {
+								dt = fmt.Sprintf("after %s on AddBar(%d): %s", pathString(p2), init, dt)
+							}
+							return out, len(p2) > 1, k, dt
+						})
+						if r2.done || r2.aborted || len(p2) >= allDepth {
+							continue
+						}
+						rec(r2, p2)
+					}
+				}
+				rec(newRefBar(init), nil)
+			}})
+		}
+	}
 	// aliases: every shorthand behaves like its base letter, with and without moving-average decorators
 	chunks = append(chunks, SeqChunk{Name: "c09-aliases", Gen: func(env *SeqEnv) {
 		first := []c09Op{{k: "IncrInt64", n: 1}, {k: "settotal", n: 5}, {k: "trigger"}, {k: "SetCurrent", n: 2}, {k: "SetRefill", n: 1}}
